@@ -103,6 +103,11 @@ def build_config(run: dict[str, Any], wd: Path, world: dict[str, Any] | None) ->
     if rel.get("continuous"):
         r["continuous"] = True
         r["release_frequency"] = rel["freq"]
+    elif rel.get("idle_frequency"):
+        # a discrete release that still carries a release_frequency entry (left over from a continuous set-up); `continuous` false or absent
+        r["release_frequency"] = rel["idle_frequency"]
+        if rel.get("continuous_key_false"):
+            r["continuous"] = False
     conf["release"] = r
 
     st = run.get("state", {})
@@ -117,7 +122,9 @@ def build_config(run: dict[str, Any], wd: Path, world: dict[str, Any] | None) ->
     o: dict[str, Any] = dict(
         filename=str(wd / out.get("filename", "out.nc")),
         output_period=out["period"],
-        instance_variables={k: varconf(v) for k, v in out.get("instance", {"pid": "i4", "X": "f8", "Y": "f8", "Z": "f8"}).items()},
+        # a value is a datatype, or a mapping with the datatype and attributes (e.g. scale_factor for a packed variable)
+        instance_variables={k: (varconf(v) if isinstance(v, str) else varconf(v["datatype"], **{a: b for a, b in v.items() if a != "datatype"}))
+                            for k, v in out.get("instance", {"pid": "i4", "X": "f8", "Y": "f8", "Z": "f8"}).items()},
     )
     pv = {}
     for k, v in out.get("particle", {}).items():
@@ -307,11 +314,13 @@ def read_outfile(path: Path) -> OutFile:
 
 
 def _fillvalue(var):
-    if "_FillValue" in var.ncattrs():
-        return var.getncattr("_FillValue")
     import netCDF4  # noqa: PLC0415
 
-    return netCDF4.default_fillvals[var.dtype.str[1:]]
+    fv = var.getncattr("_FillValue") if "_FillValue" in var.ncattrs() else netCDF4.default_fillvals[var.dtype.str[1:]]
+    if "scale_factor" in var.ncattrs() or "add_offset" in var.ncattrs():
+        # packed variable read with automatic scaling (masking is off): the fill value comes back scaled like the data
+        fv = float(np.asarray(fv, var.dtype) * np.asarray(getattr(var, "scale_factor", 1.0)) + np.asarray(getattr(var, "add_offset", 0.0)))
+    return fv
 
 
 def _isfill(arr, fv):
@@ -319,7 +328,7 @@ def _isfill(arr, fv):
     if isinstance(fv, float) and np.isnan(fv):
         return np.isnan(arr)
     if arr.dtype.kind == "f":
-        return np.isnan(arr) | (arr == fv)
+        return np.isnan(arr) | (arr == fv) | np.isclose(arr, fv, rtol=1e-12, atol=0.0)
     return arr == fv
 
 
